@@ -123,7 +123,7 @@ pub fn cmd_worker(args: &[String]) -> i32 {
     let deadline = Duration::from_secs(args[6].parse().unwrap_or(60));
     let t0 = Instant::now();
     let known = load_known();
-    let mut st = WorkerStats::default();
+    let mut samples_sent = 0;
     let mut run = start;
     while run < total {
         if t0.elapsed() > deadline {
@@ -133,25 +133,20 @@ pub fn cmd_worker(args: &[String]) -> i32 {
         out_line(&format!("B {}", run));
         let sc = p.generate(seed, run, tier);
         let rep = p.check(&sc);
-        st.runs += 1;
-        st.execs += rep.execs;
-        st.steps += rep.steps;
-        if rep.nontrivial {
-            st.nontrivial_keys.push(rep.distinct_key);
-        }
-        for (k, v) in &rep.probes {
-            *st.probes.entry(k.clone()).or_insert(0) += v;
-        }
-        for (k, v) in &rep.fired {
-            *st.fired.entry(k.clone()).or_insert(0) += v;
-        }
-        if st.samples.len() < 2 {
-            if let Some(s) = &rep.sample {
-                st.samples.push(s.clone());
+        let mini = serde_json::json!({
+            "execs": rep.execs,
+            "steps": rep.steps,
+            "nontrivial": rep.nontrivial,
+            "key": rep.distinct_key,
+            "probes": rep.probes,
+            "fired": rep.fired,
+            "harness_error": rep.harness_error,
+        });
+        if samples_sent < 2 {
+            if let Some(smp) = &rep.sample {
+                out_line(&format!("M {}", serde_json::to_string(smp).unwrap_or_default()));
+                samples_sent += 1;
             }
-        }
-        if let Some(e) = &rep.harness_error {
-            st.harness_errors.push(format!("run {}: {}", run, e));
         }
         let (viol, kn) = classify(&rep, &known);
         for (slug, v) in &kn {
@@ -169,10 +164,10 @@ pub fn cmd_worker(args: &[String]) -> i32 {
             let _ = std::fs::write(&path, serde_json::to_string_pretty(&rp).unwrap_or_default());
             out_line(&format!("V {} {}", run, path));
         }
-        out_line(&format!("E {} {:016x}", run, trace_hash(&rep)));
+        out_line(&format!("E {} {:016x} {}", run, trace_hash(&rep), mini));
         run += stride;
     }
-    out_line(&format!("S {}", serde_json::to_string(&st).unwrap_or_default()));
+    out_line("S done");
     0
 }
 
@@ -557,7 +552,8 @@ pub fn cmd_replay(path: &str) -> i32 {
 // controller
 
 struct WorkerResult {
-    stats: Option<WorkerStats>,
+    finished: bool,
+    stats: WorkerStats,
     hashes: HashMap<u64, u64>,
     violations: Vec<(u64, String)>,
     known: Vec<(u64, String, String)>,
@@ -570,7 +566,8 @@ struct WorkerResult {
 fn run_worker(p: &dyn Property, tier: &str, seed: u64, start: u64, stride: u64, total: u64, deadline_s: u64) -> WorkerResult {
     let exe = std::env::current_exe().unwrap();
     let mut res = WorkerResult {
-        stats: None,
+        finished: false,
+        stats: WorkerStats::default(),
         hashes: HashMap::new(),
         violations: vec![],
         known: vec![],
@@ -611,10 +608,39 @@ fn run_worker(p: &dyn Property, tier: &str, seed: u64, start: u64, stride: u64, 
             "B" => open = it.next().and_then(|x| x.parse().ok()),
             "E" => {
                 let run: u64 = it.next().and_then(|x| x.parse().ok()).unwrap_or(0);
-                let h = u64::from_str_radix(it.next().unwrap_or("0"), 16).unwrap_or(0);
+                let rest = it.next().unwrap_or("");
+                let mut r2 = rest.splitn(2, ' ');
+                let h = u64::from_str_radix(r2.next().unwrap_or("0"), 16).unwrap_or(0);
                 res.hashes.insert(run, h);
+                if let Ok(v) = serde_json::from_str::<serde_json::Value>(r2.next().unwrap_or("{}")) {
+                    let st = &mut res.stats;
+                    st.runs += 1;
+                    st.execs += v["execs"].as_u64().unwrap_or(0);
+                    st.steps += v["steps"].as_u64().unwrap_or(0);
+                    if v["nontrivial"].as_bool().unwrap_or(false) {
+                        st.nontrivial_keys.push(v["key"].as_u64().unwrap_or(0));
+                    }
+                    if let Some(m) = v["probes"].as_object() {
+                        for (k, x) in m {
+                            prop::merge_probe(&mut st.probes, k, x.as_u64().unwrap_or(0));
+                        }
+                    }
+                    if let Some(m) = v["fired"].as_object() {
+                        for (k, x) in m {
+                            *st.fired.entry(k.clone()).or_insert(0) += x.as_u64().unwrap_or(0);
+                        }
+                    }
+                    if let Some(e) = v["harness_error"].as_str() {
+                        st.harness_errors.push(format!("run {}: {}", run, e));
+                    }
+                }
                 open = None;
                 res.next_run = run + stride;
+            }
+            "M" => {
+                if let Ok(v) = serde_json::from_str::<serde_json::Value>(&line[2..]) {
+                    res.stats.samples.push(v);
+                }
             }
             "V" => {
                 let run: u64 = it.next().and_then(|x| x.parse().ok()).unwrap_or(0);
@@ -631,15 +657,12 @@ fn run_worker(p: &dyn Property, tier: &str, seed: u64, start: u64, stride: u64, 
                 ));
             }
             "T" => res.timed_out_at = it.next().and_then(|x| x.parse().ok()),
-            "S" => {
-                let rest = &line[2..];
-                res.stats = serde_json::from_str(rest).ok();
-            }
+            "S" => res.finished = true,
             _ => {}
         }
     }
     let st = child.wait();
-    if res.stats.is_none() {
+    if !res.finished {
         res.aborted_run = open;
         res.exit_desc = format!("{:?}", st);
         if let Some(r) = open {
@@ -698,7 +721,7 @@ pub fn cmd_check(prop_id: &str, tier: &str) -> i32 {
                     loop {
                         let left = cap.saturating_sub(t0.elapsed().as_secs());
                         let r = run_worker(p, tier, seed, start, w as u64, total, left);
-                        let done = r.stats.is_some();
+                        let done = r.finished;
                         let next = r.next_run;
                         out.push(r);
                         if done || next >= total || restarts > 64 {
@@ -714,13 +737,14 @@ pub fn cmd_check(prop_id: &str, tier: &str) -> i32 {
         hs.into_iter().map(|h| h.join().unwrap_or_default()).collect()
     });
     for wr in results.into_iter().flatten() {
-        if let Some(st) = wr.stats {
+        {
+            let st = wr.stats;
             agg.runs += st.runs;
             agg.execs += st.execs;
             agg.steps += st.steps;
             agg.nontrivial_keys.extend(st.nontrivial_keys);
             for (k, v) in st.probes {
-                *agg.probes.entry(k).or_insert(0) += v;
+                prop::merge_probe(&mut agg.probes, &k, v);
             }
             for (k, v) in st.fired {
                 *agg.fired.entry(k).or_insert(0) += v;
@@ -731,6 +755,8 @@ pub fn cmd_check(prop_id: &str, tier: &str) -> i32 {
                 }
             }
             harness_errors.extend(st.harness_errors);
+        }
+        if wr.finished {
         } else if let Some(run) = wr.aborted_run {
             // the worker died inside run `run`
             if p.may_abort() {
@@ -954,7 +980,8 @@ pub fn cmd_check(prop_id: &str, tier: &str) -> i32 {
 impl Default for WorkerResult {
     fn default() -> Self {
         WorkerResult {
-            stats: None,
+            finished: false,
+            stats: WorkerStats::default(),
             hashes: HashMap::new(),
             violations: vec![],
             known: vec![],
